@@ -158,7 +158,11 @@ def oracle(r):
         return bad, st
     if a['kernel'] is not None:
         st['dependent'] = 1
-        bad.append({'key': 'mesh:loops-dependent',
+        sets = [set(l) for l in a['loops']]
+        sup = any(i != j and sets[j] <= sets[i] for i in range(nl) for j in range(nl))
+        # the selection rule of chordless_loops held (no loop's node set contains another's) and the set is still dependent: a face
+        # too many (K4, wheels); anything else is a different defect
+        bad.append({'key': 'mesh:loops-dependent:%s' % ('superset-loop-kept' if sup else 'minimal-node-sets(outer-face-kept)'),
                     'what': 'mesh analysis records %d loops %s for a circuit graph with %d branches, %d nodes (cyclomatic number %d): the loops are linearly dependent '
                             '(combination %s of their branch incidences vanishes), so the mesh currents are not determined and the printed system A y = b is singular' % (
                                 nl, names, len(a['edges']), len(a['nodes']), a['expected'], [str(x) for x in a['kernel']])})
